@@ -102,3 +102,25 @@ Theorem C02_spec_a64_is_a_row : forall mn ops id ws, spec_a64_rows rows alt_tabl
 Proof. exact (spec_a64_from_row rows alt_table). Qed.
 Print Assumptions C02_spec_a64_is_a_row.
 
+
+(* ---- non-vacuity on a hand-written row (ADD Xd, Xn, Xm with a zero shift): the hypotheses of the theorems above are satisfiable and the
+   conclusions say something: the row is well formed, accepts x1, x2, x3 with the architectural word 8B030041, the operands are read back
+   from that word, and SP (id 31) in a ZR position is refused. The generated coq/gen/IsaA64Db.v carries instruction-level Examples over
+   the real database rows (ex_add, ex_ldr_falls_back_to_ldur, ex_mov_sequence, ex_fmov_imm, ex_ld2_lane, ex_refuses_...). *)
+Definition ex_row : row :=
+  {| r_id := 1; r_mn := 1; r_ops := [SGp true 63 0; SGp true 63 1; SGp true 63 2];
+     r_tmpl := [TFixed 11 1112; TField 2 4 0; TFixed 6 0; TField 1 4 0; TField 0 4 0]; r_fields := [(0, 5); (1, 5); (2, 5)] |}.
+Example ex_row_wf : row_wf ex_row = true /\ row_inv ex_row = true.
+Proof. vm_compute. split; reflexivity. Qed.
+Example ex_row_encodes : spec_row ex_row [OGp true 1; OGp true 2; OGp true 3] = Some 2332229697.
+Proof. vm_compute. reflexivity. Qed.
+Example ex_row_decodes : decode_row ex_row 2332229697 = [OGp true 1; OGp true 2; OGp true 3]
+  /\ canon (r_ops ex_row) [OGp true 1; OGp true 2; OGp true 3] = Some (decode_row ex_row 2332229697).
+Proof. vm_compute. split; reflexivity. Qed.
+Example ex_row_refuses_sp : spec_row ex_row [OGp true 1; OGp true 31; OGp true 3] = None
+  /\ ~ ops_valid (r_ops ex_row) [OGp true 1; OGp true 31; OGp true 3].
+Proof.
+  split; [vm_compute; reflexivity|]. cbn. intros (_ & (_ & [H | H]) & _); [destruct H as [_ H]; apply Z.leb_gt in H || (revert H; apply Z.lt_nge; reflexivity) | discriminate].
+Qed.
+Example ex_fixed_bits : Z.land 2332229697 (tmask (r_tmpl ex_row)) = tfixed (r_tmpl ex_row) /\ tmask (r_tmpl ex_row) = 4292934656.
+Proof. vm_compute. split; reflexivity. Qed.
